@@ -1,6 +1,6 @@
 #!/bin/bash
 # try_seed.sh <patch.diff> <check ids...> : apply a seeded change to /repo, run the given checks, undo it
-patch=$1; shift
+patch=$(readlink -f $1); shift
 cd /repo && git apply "$patch" || { echo "PATCH DOES NOT APPLY"; exit 2; }
 cd /verif
 for id in "$@"; do
